@@ -78,6 +78,10 @@ def builder_owned(b: G.Built) -> list:
     if G.has(cls, "MixinIvt", "MixinIvtZeroTotalLength"):
         return [(o, o + 4) for o in IVT_WORDS]
     r = []
+    if b.bca_bytes is not None:
+        r.append((0x3C0, 0x400))
+    if b.fcf_bytes is not None:
+        r.append((0x400, 0x410))
     if G.has(cls, "MixinBcaTable"):
         if b.lifecycle not in (None, "NOT_SET"):
             r.append((0x40C, 0x40D))
@@ -151,6 +155,14 @@ def _header(o, b: G.Built, img: bytes):
                 o.check("header", got == blk, "reloc_block_in_image", first_diff(got, blk))
             if b.tz_type == 1 and not G.cert_kind(cls):
                 o.check("header", img[-len(b.tz_bytes) :] == b.tz_bytes, "tz_data_in_image", first_diff(img[-len(b.tz_bytes) :], b.tz_bytes))
+    else:
+        # images without the vector-table words (MCXC, MC56F81xxx): the image is the application with the ranges the builder owns
+        owned = builder_owned(b)
+        o.check("header", mask_ranges(img[: len(want_app)], owned) == mask_ranges(want_app, owned), "payload_in_image",
+                first_diff(mask_ranges(img[: len(want_app)], owned), mask_ranges(want_app, owned)))
+    for name, blob, off in (("bca", b.bca_bytes, 0x3C0), ("fcf", b.fcf_bytes, 0x400)):
+        if blob is not None:
+            o.check("header", img[off : off + len(blob)] == blob, name + "_in_image", first_diff(img[off : off + len(blob)], blob))
     return cert_off
 
 
@@ -225,6 +237,10 @@ def run_case(case, o: Oracle) -> None:
         setting("reloc", "app_table", want_rel, get=lambda t: [(bytes(e.image), e.dst_addr, e.flags) for e in t.entries] if t else [], default=[])
     if b.lifecycle not in (None, "NOT_SET"):
         setting("lifecycle", "lifecycle", G.LIFECYCLES[b.lifecycle])
+    if b.bca_bytes is not None:
+        setting("bca", "bca", b.bca_bytes, get=lambda a: bytes(a.export()) if a else b"")
+    if b.fcf_bytes is not None:
+        setting("fcf", "fcf", b.fcf_bytes, get=lambda a: bytes(a.export()) if a else b"")
     if b.iv is not None:
         setting("ctr_iv", "ctr_init_vector", b.iv, get=bytes)
     if b.v1 is not None:
@@ -464,12 +480,33 @@ def _matrix_item(tier: str, i: int):
     return G.default_case(_matrix_classes(tier)[i], _CTX["seed"])
 
 
+_AREA_FORMS = [None, "bin", "yaml", "embedded"]
+
+
+def _area_classes() -> list:
+    return [c for c in G.all_classes(True) if G.options_keys(c)]
+
+
+def _areas_count(tier: str) -> int:
+    return len(_area_classes()) * 16
+
+
+def _areas_item(tier: str, i: int):
+    """MCXC: every way to supply the bootloader configuration area x every way to supply the flash configuration field."""
+    cls = _area_classes()[i // 16]
+    case = G.default_case(cls, _CTX["seed"] * 16 + i % 16)
+    for key, form in (("bca", _AREA_FORMS[i % 4]), ("fcf", _AREA_FORMS[(i // 4) % 4])):
+        case["opt"][key] = dict(case["opt"][key], **{"as": form}) if form else None
+    return case
+
+
 def parts(ctx):
     _CTX.update(work=ctx.work, seed=ctx.seed, tier=ctx.tier)
     cli.preload()
     max_len = 16384 if ctx.quick else 262144
     return [
         EnumPart("matrix", _matrix_count, _matrix_item, run_case, exhaustive=False),
+        EnumPart("areas", _areas_count, _areas_item, run_case, exhaustive=False),
         HypPart("random", G.case_strategy(G.all_classes(True), max_len), run_case, {"quick": 640, "thorough": 24000}),
         pins.part(["mbi"], 1000),  # which image kinds a device's ROM takes and what they are made of
     ]
